@@ -330,3 +330,39 @@ class Gen:
 
     def doc(self):
         return self.map(self.max_depth)
+
+
+# ---------------------------------------------------------------------------
+# command-line overrides (config.py process_cmdline): `a.b[0].c=value`
+
+def _is_chain(sd):
+    return sd["form"] == "none" and (sd["k"] != "dict" or (len(sd["ch"]) == 1 and _is_chain(sd["ch"][0][1])))
+
+
+def is_override_doc(sd):
+    return (sd["k"] == "dict" and sd["form"] == "tag" and sd["anew"] == "F" and sd["pr"] == 9 and sd["del"] == "N"
+            and sd["safe"] == "N" and len(sd["ch"]) == 1 and sd["ch"][0][0]["t"] == "s" and _is_chain(sd["ch"][0][1]))
+
+
+def _flow(sd):
+    if sd["k"] == "scalar":
+        return _scalar_text(sd["v"])
+    if sd["k"] == "list":
+        return "[" + ", ".join(_flow(c) for _, c in sd["ch"]) + "]"
+    if sd["k"] == "dict":
+        return "{" + ", ".join(_key_text(k) + ": " + _flow(c) for k, c in sd["ch"]) + "}"
+    raise ValueError(sd["k"])
+
+
+def override_option(sd):
+    """the inline option text whose process_cmdline expansion is the document sd"""
+    path = ""
+    node = sd
+    while node["k"] == "dict" and len(node["ch"]) == 1 and (node is sd or node["form"] == "none"):
+        k, c = node["ch"][0]
+        if k["t"] == "i":
+            path += f"[{k['n']}]"
+        else:
+            path += ("." if path else "") + k["s"]
+        node = c
+    return path + "=" + _flow(node)
